@@ -1104,8 +1104,11 @@ func c02Plugin(c *Ctx, ro *c02Roles) {
 	// the plugin name handed to Manager.Get
 	nameV := getCall.Call.Args[1]
 	nameD := desc(nameV)
-	named := fi.edgesMatching(func(l string, _ *ssa.If, _ bool) bool { return l == "NE("+nameD+`,const:"")` })
-	unnamed := fi.edgesMatching(func(l string, _ *ssa.If, _ bool) bool { return l == "EQ("+nameD+`,const:"")` })
+	// "the signature names a plugin" is decided by a test of the name or, where the reader of the name ties its error to
+	// the name, by a test of that error (c02NameFacts)
+	nf := c02NameFactsOf(ro)
+	named := nf.namedEdges(fi)
+	unnamed := nf.unnamedEdges(fi)
 	// the lookup helper may be the BODY of the named branch: the test is then in P, on the argument P hands in as the name,
 	// and guards the call (c02NamedEntry): L runs with a plugin named only, all its success exits are exits "with a plugin named"
 	entry := c02NamedEntry(ro)
@@ -1483,7 +1486,7 @@ func c02Routing(c *Ctx, ro *c02Roles) {
 		hasTI, hasChain := false, false
 		for _, a := range call.Call.Args {
 			d := desc(a)
-			if d == tiParam {
+			if d == tiParam || c02FedBy(w, a, ".TrustedIdentities") {
 				hasTI = true
 			}
 			if strings.HasSuffix(d, ".SignerInfo.CertificateChain") {
@@ -1521,7 +1524,7 @@ func c02Routing(c *Ctx, ro *c02Roles) {
 				hasTI, hasChain := false, false
 				for _, a := range call.Call.Args {
 					d := desc(a)
-					if d == fti {
+					if d == fti || c02FedBy(w, a, ".TrustedIdentities") {
 						hasTI = true
 					}
 					if strings.HasSuffix(d, ".SignerInfo.CertificateChain") {
